@@ -29,8 +29,16 @@ pub fn run_history(seed: u64, idx: u64, exact: bool, verbose: bool) -> Outcome {
     let spec = tree(&mut rng, &cfg);
     let (mut w, root) = World::new(&spec);
     let a0 = avail(&mut rng, &cfg);
+    #[cfg(taffy_verif)]
+    let mut scribbled: std::collections::HashMap<taffy::NodeId, bool> = std::collections::HashMap::new();
+    #[cfg(taffy_verif)]
+    taffy::verif_hooks::start_trace();
     compute(&mut w.t, root, a0);
+    #[cfg(taffy_verif)]
+    update_scribbled(&taffy::verif_hooks::take_trace(), &mut scribbled);
     let nops = 5 + rng.below(25);
+    // `scribbled`: which stored layouts were last written under a ComputeSize evaluation (persists across passes: a later
+    // pass that is answered from the cache leaves such a layout in place)
     let mut out = Outcome { fails: vec![], layouts: 0, ops: 0, fresh_scribbles: 0, trace: vec![] };
     if verbose {
         out.trace.push(format!("initial tree: {:#?}\ninitial layout avail={:?}", spec, a0));
@@ -44,6 +52,8 @@ pub fn run_history(seed: u64, idx: u64, exact: bool, verbose: bool) -> Outcome {
         let applied = w.apply(&op);
         #[cfg(taffy_verif)]
         let trace = taffy::verif_hooks::take_trace();
+        #[cfg(taffy_verif)]
+        update_scribbled(&trace, &mut scribbled);
         if verbose {
             out.trace.push(format!("step {step}: applied={applied} {:?}", op));
         }
@@ -89,7 +99,11 @@ pub fn run_history(seed: u64, idx: u64, exact: bool, verbose: bool) -> Outcome {
                     let class = {
                         let ci = classify(&trace, *n);
                         let cf = classify(&ftrace, *f);
-                        if ci == "scribble" || cf == "scribble" { "scribble" } else { ci }
+                        if ci == "scribble" || cf == "scribble" || (ci == "untouched" && scribbled.get(n).copied().unwrap_or(false)) {
+                            "scribble"
+                        } else {
+                            ci
+                        }
                     };
                     #[cfg(not(taffy_verif))]
                     let class = "untraced";
@@ -154,6 +168,24 @@ pub fn classify(trace: &[taffy::verif_hooks::Event], n: taffy::NodeId) -> &'stat
         Some(true) => "scribble",
         Some(false) => "perform",
         None => "untouched",
+    }
+}
+
+#[cfg(taffy_verif)]
+pub fn update_scribbled(trace: &[taffy::verif_hooks::Event], map: &mut std::collections::HashMap<taffy::NodeId, bool>) {
+    use taffy::verif_hooks::Event;
+    let mut stack: Vec<taffy::RunMode> = vec![];
+    for ev in trace {
+        match ev {
+            Event::Query { input, .. } => stack.push(input.run_mode),
+            Event::Return { .. } => {
+                stack.pop();
+            }
+            Event::SetLayout { node } => {
+                map.insert(*node, stack.iter().any(|m| *m == taffy::RunMode::ComputeSize));
+            }
+            Event::Hidden { .. } => {}
+        }
     }
 }
 
